@@ -333,13 +333,15 @@ Lemma file_create_scr : forall o p o' ok fid, file_create o p = (o', ok, fid) ->
 Proof.
   intros o p o' ok fid H. unfold file_create in H.
   destruct (os_open o p) as [o1 [fd|]] eqn:E; apply os_open_scr in E.
-  - pose proof (os_close_scr (log o1 (ELock fd false)) (Some fd)) as C.
-    remember (os_close (log o1 (ELock fd false)) (Some fd)) as oc.
-    destruct (cscr o (nopen o)); cbv zeta in H; inversion H; subst o' ok fid.
+  - assert (C : forall o2, scr_frame o1 o2 -> scr_frame o (bump_fail (os_close o2 (Some fd)))).
+    { intros o2 F. apply (scr_frame_trans o o1); [exact E|]. apply (scr_frame_trans o1 o2); [exact F|].
+      apply (scr_frame_trans o2 (os_close o2 (Some fd))); [apply os_close_scr|].
+      unfold scr_frame, bump_fail; cbn [cscr wscr nwrite]; auto. }
+    destruct (cscr o (nopen o)); cbv zeta in H; injection H as <- <- <-.
     + apply (scr_frame_trans o o1); [exact E|]. unfold scr_frame; simpl; auto.
     + apply (scr_frame_trans o o1); [exact E|]. unfold scr_frame; simpl; auto.
-    + apply (scr_frame_trans o o1); [exact E|]. apply (scr_frame_trans o1 (log o1 (ELock fd false))); [unfold scr_frame; simpl; auto|].
-      apply (scr_frame_trans _ oc); [exact C|]. unfold scr_frame; simpl; auto.
+    + apply (C (log o1 (ELock fd false))). unfold scr_frame; simpl; auto.                              (* flock failed *)
+    + apply (C (log (log o1 (ELock fd true)) (ETrunc fd false))). unfold scr_frame; simpl; auto.        (* ftruncate failed *)
   - inversion H; subst. apply (scr_frame_trans o o1); [exact E|]. unfold scr_frame; auto.
 Qed.
 
